@@ -31,7 +31,7 @@ func TestC02SwarmBurst(t *testing.T) {
 		spec := stack.Spec{Base: base, BaseMTU: 1500, QueueLen: 256, Layers: []stack.Layer{{Kind: "p2pke"}}}
 		w, err := stack.Build(spec, 2, 0)
 		if err != nil {
-			t.Fatalf("harness: %v", err)
+			t.Fatalf("%s", ev.Tag(fmt.Sprintf("harness: %v", err)))
 		}
 		defer w.Close()
 		desc := fmt.Sprintf("%s messages=%d senders=%d receivers=%d callback=%dus sizes=%s", base, n, senders, receivers, cbMicros, sizeMode)
